@@ -44,6 +44,36 @@
 (*     and, for a NODATA target, chases the target again and merges the    *)
 (*     result in (HitDer / HitDerChase / HitDerResolve).                   *)
 (*                                                                         *)
+(* Race = TRUE adds the dimension the atomic lookup above hides (C02: "for  *)
+(* all orders in which such proofs are admitted to ... the caches"):        *)
+(*   - lookupWithMeta is NOT one critical section: it captures the zone's  *)
+(*     published snapshot under the read lock (Begin), evaluates it with   *)
+(*     NO lock held (NSEC3 hashing; admissions of other clients interleave *)
+(*     here) and only then, under the read lock again, re-checks the       *)
+(*     conflict quarantine and shapes the answer FROM THE SNAPSHOT         *)
+(*     (FlSynth / FlMissGet / FlResolve / FlPositive).  The evaluation     *)
+(*     reads the immutable snapshot only, so the windows before and after  *)
+(*     it are one window here (deliberate deviation; the prune after the   *)
+(*     evaluation is done by the finishing step when the snapshot is still *)
+(*     the published one, as pruneZoneLocked has it).                      *)
+(*   - the zone CHANGES (Create(p, tgt)): the authority now serves another *)
+(*     RRset at the owner of piece p (a type was added at that name, or a  *)
+(*     name was created inside its span), and the answer to the question   *)
+(*     in flight (tgt = "flight") or to some other name ("other") turned   *)
+(*     positive.  Every retained piece remembers the version it is (v).    *)
+(*   - recordWithKind for Kind = "nsec3": a validated RRset that differs   *)
+(*     from the LIVE retained one at the same owner hash is an ambiguity:  *)
+(*     nothing is admitted, the whole parameter ring is removed and the    *)
+(*     tuple is tombstoned (quar) until the later of the two expiries;     *)
+(*     while the tombstone is active every admission carrying that tuple   *)
+(*     is refused.  Kind = "nsec": the later RRset replaces the earlier    *)
+(*     one (no quarantine exists for NSEC).                                *)
+(* NoQuarantinedSynthesis: no answer is shaped from a ring that is         *)
+(* tombstoned at the instant of shaping -- in particular (hit) never a     *)
+(* denial of the very name/type whose creation caused the quarantine.      *)
+(* The seeded change C02-r3-1 (re-check skips NSEC3 selections) is the     *)
+(* mutant "recheckSkipsNsec3".                                             *)
+(*                                                                         *)
 (* `tru` is a ghost: the lifetime the PROPERTY grants a piece (its own     *)
 (* TTL / RRSIG window from the instant it was learned), kept apart from    *)
 (* `exp`, the expiry the CODE computed; the mutants change exp only.       *)
@@ -61,11 +91,16 @@ CONSTANTS
   AliasTTL,    \* TTL of the alias record of Derive (longer than every lifetime)
   MaxClock, MaxGen,
   Secure,      \* the zone validates (answers carry local validation provenance)
-  Mutant       \* "none" or the name of a model mutant (negative configs)
+  Mutant,      \* "none" or the name of a model mutant (negative configs)
+  Kind,        \* "nsec" | "nsec3": the denial mechanism of the zone (decides what a second RRset at one owner means)
+  Race,        \* TRUE: lookups in flight (snapshot .. re-check) and zone changes are part of the behaviours
+  MaxBorn,     \* at most this many zone changes
+  Targets      \* subset of {"flight", "other"}: whose answer a zone change turns positive
 
 None == [g |-> 0]
 ASSUME /\ \A q \in Questions : Need[q] \subseteq Pieces /\ Need[q] # {}
-       /\ Secure \in BOOLEAN
+       /\ Secure \in BOOLEAN /\ Race \in BOOLEAN
+       /\ Kind \in {"nsec", "nsec3"} /\ Targets \subseteq {"flight", "other"}
 
 VARIABLES
   now,     \* clock (ticks)
@@ -73,8 +108,13 @@ VARIABLES
   soa,     \* None or [g, exp, tru, val]   (g = the admission that brought it)
   pf,      \* [Pieces -> None or [g, exp, tru, val]]
   der,     \* None or the alias entry re-cached from a synthesised reply [g |-> 1, q, exp, mtru]
-  reply    \* what the last call returned
-vars == <<now, gen, soa, pf, der, reply>>
+  reply,   \* what the last call returned
+  ver,     \* [Pieces -> Nat]: which RRset the AUTHORITY serves at the owner of p now (zone version of that owner)
+  born,    \* zone changes so far
+  quar,    \* 0 or the instant the NSEC3 conflict tombstone of the zone's parameter tuple ends
+  fl       \* None or the lookup in flight [g |-> 1, q, r, soa, pf (the captured snapshot), hit]
+vars == <<now, gen, soa, pf, der, reply, ver, born, quar, fl>>
+race == <<ver, born, quar, fl>>
 
 Min(a, b) == IF a <= b THEN a ELSE b
 Max(a, b) == IF a >= b THEN a ELSE b
@@ -88,6 +128,7 @@ Init ==
   /\ now = 0 /\ gen = 0 /\ soa = None /\ der = None
   /\ pf = [p \in Pieces |-> None]
   /\ reply = NoReply
+  /\ ver = [p \in Pieces |-> 0] /\ born = 0 /\ quar = 0 /\ fl = None
 
 (* ---- lookupWithMeta: prune, evaluate, shape ---------------------------- *)
 SoaUsable == IF Mutant = "expiredSoa" THEN soa # None ELSE Live(soa)
@@ -120,7 +161,8 @@ SynthReply(q, r) ==
       ttl  |-> te - now, hand |-> e, ad |-> TRUE,
       soaGen |-> soa.g, gens |-> [p \in UsedPieces(q) |-> pf[p].g],
       mtru |-> MinTru(q), allval |-> soa.val /\ \A p \in UsedPieces(q) : pf[p].val,
-      complete |-> Need[q] \subseteq UsedPieces(q)]
+      complete |-> Need[q] \subseteq UsedPieces(q),
+      quar |-> FALSE, hit |-> FALSE, inflight |-> FALSE, replaced |-> FALSE]   \* atomic: nothing comes between (see FlSynth)
 
 (* ---- recordWithKind: the bundle of one validated negative answer ------- *)
 Admits == Secure \/ Mutant = "admitUnvalidated"
@@ -128,19 +170,35 @@ Admits == Secure \/ Mutant = "admitUnvalidated"
 NewSoa(s) ==
   LET e == IF Mutant = "soaKeepsLonger" /\ PrunedSoa # None THEN Max(PrunedSoa.exp, now + s) ELSE now + s
   IN  [g |-> gen + 1, exp |-> e, tru |-> now + s, val |-> Secure]
-NewPiece(s, x) ==
+NewPiece(p, s, x) ==
   LET e == IF Mutant = "noFold" THEN now + x ELSE now + Min(s, x)
-  IN  [g |-> gen + 1, exp |-> e, tru |-> now + x, val |-> Secure]
+  IN  [g |-> gen + 1, exp |-> e, tru |-> now + x, val |-> Secure, v |-> ver[p]]
+
+\* NSEC3 only: the parameter tuple of the zone's ring is tombstoned (nsec3ConflictActiveLocked)
+QuarActive == Kind = "nsec3" /\ quar > now
+\* the RRsets of an answer to q that differ from the LIVE retained RRset at the same owner (the miss that sent the
+\* question upstream has pruned the zone first)
+Conflicting(q) == {p \in Need[q] : PrunedPf[p] # None /\ PrunedPf[p].exp > now /\ PrunedPf[p].v # ver[p]}
 
 \* the upstream leg of a miss: q is answered by the authority with SOA lifetime s and proof lifetime x
 Upstream(q, r, s, x) ==
   /\ gen < MaxGen
   /\ gen' = gen + 1
-  /\ IF Admits
-       THEN /\ soa' = NewSoa(s)
-            /\ pf'  = [p \in Pieces |-> IF p \in Need[q] THEN NewPiece(s, x) ELSE PrunedPf[p]]
-       ELSE /\ soa' = PrunedSoa
+  /\ IF ~Admits \/ QuarActive                   \* ... or refused: every NSEC3 RRset of the answer is of the tombstoned tuple
+       THEN /\ soa' = PrunedSoa
             /\ pf'  = PrunedPf
+            /\ quar' = quar
+       ELSE IF Kind = "nsec3" /\ Conflicting(q) # {}
+       \* a second validated RRset at one owner hash: never "latest wins" -- nothing of the bundle is admitted (the SOA
+       \* entry stays as it was), the whole ring goes, the tuple is tombstoned through both observations' lifetimes
+       \* (the first conflicting entry of the bundle decides the tombstone; configs keep MaxBorn <= 1, so there is one)
+       THEN \E p \in Conflicting(q) :
+              /\ soa' = PrunedSoa
+              /\ pf'  = IF Mutant = "quarKeepsRing" THEN PrunedPf ELSE [pp \in Pieces |-> None]
+              /\ quar' = Max(NewPiece(p, s, x).exp, PrunedPf[p].exp)
+       ELSE /\ soa' = NewSoa(s)
+            /\ pf'  = [p \in Pieces |-> IF p \in Need[q] THEN NewPiece(p, s, x) ELSE PrunedPf[p]]
+            /\ quar' = quar
   /\ reply' = [kind |-> "resolved", q |-> q, route |-> r, rc |-> Rcode[q], at |-> now,
                ttl |-> Min(s, x), ad |-> Secure, s |-> s, x |-> x]
 
@@ -149,22 +207,24 @@ Upstream(q, r, s, x) ==
 \* Query is one call of the code; it is split by outcome so that the authority's lifetimes are parameters only
 \* where an authority is asked.
 Synth(q, r) ==                       \* answered by the index
+  /\ fl = None
   /\ Covered(q)
   /\ reply' = SynthReply(q, r)
   /\ soa' = PrunedSoa /\ pf' = PrunedPf
-  /\ UNCHANGED <<now, gen, der>>
+  /\ UNCHANGED <<now, gen, der>> /\ UNCHANGED race
 
 MissGet(q) ==                        \* Store.GetWithContext never resolves: only the pruning is left behind
+  /\ fl = None
   /\ "get" \in Routes
   /\ ~Covered(q)
   /\ reply' = [kind |-> "miss", q |-> q, route |-> "get"]
   /\ soa' = PrunedSoa /\ pf' = PrunedPf
-  /\ UNCHANGED <<now, gen, der>>
+  /\ UNCHANGED <<now, gen, der>> /\ UNCHANGED race
 
 Resolve(q, s, x) ==                  \* Cache.ServeDNS: miss, resolved upstream, admitted on the way back
-  /\ ~Covered(q)
+  /\ ~Covered(q)                     \* (also ANOTHER client's question while a lookup is in flight)
   /\ Upstream(q, "srv", s, x)
-  /\ UNCHANGED <<now, der>>
+  /\ UNCHANGED <<now, der, ver, born, fl>>
 
 \* A fresh alias (own TTL AliasTTL, resolved upstream) whose target is a fresh question of class q that the index
 \* answers.  The composed reply is re-cached under the alias, bounded by what the synthesis handed down -- and, as the
@@ -173,6 +233,7 @@ Resolve(q, s, x) ==                  \* Cache.ServeDNS: miss, resolved upstream,
 \* left, request-tree bound = hand), i.e. a synthesis inside an alias chase shortens every piece it used to the
 \* shortest of them.
 Derive(q) ==
+  /\ fl = None
   /\ Covered(q)
   /\ LET sr == SynthReply(q, "srv")
          e  == IF Mutant = "derivedMax" THEN Max(now + AliasTTL, sr.hand) ELSE Min(now + AliasTTL, sr.hand)
@@ -180,7 +241,7 @@ Derive(q) ==
         /\ reply' = [sr EXCEPT !.kind = "derive"]
         /\ soa' = [soa EXCEPT !.exp = sr.hand]
         /\ pf'  = [p \in Pieces |-> IF p \in UsedPieces(q) THEN [pf[p] EXCEPT !.exp = sr.hand] ELSE PrunedPf[p]]
-  /\ UNCHANGED <<now, gen>>
+  /\ UNCHANGED <<now, gen>> /\ UNCHANGED race
 
 \* The alias asked again while its entry is live.  The entry holds the COMPOSED reply (alias record + the synthesised
 \* authority section as it was then); every record of it shows what the entry has left.
@@ -190,39 +251,112 @@ Derive(q) ==
 \*    present are not repeated; a newer SOA entry appears NEXT TO the stored one).  The hit path has no cache writer
 \*    around it: nothing is admitted again.
 HitDer ==
+  /\ fl = None
   /\ der # None /\ der.exp > now /\ Rcode[der.q] = "NX"
   /\ reply' = [kind |-> "derhit", q |-> der.q, route |-> "srv", at |-> now, attl |-> der.exp - now, amtru |-> der.mtru]
-  /\ UNCHANGED <<now, gen, soa, pf, der>>
+  /\ UNCHANGED <<now, gen, soa, pf, der>> /\ UNCHANGED race
 
 HitDerChase ==
+  /\ fl = None
   /\ der # None /\ der.exp > now /\ Rcode[der.q] = "ND" /\ Covered(der.q)
   /\ reply' = [SynthReply(der.q, "srv") EXCEPT !.kind = "derchase"] @@ [attl |-> der.exp - now, amtru |-> der.mtru]
   /\ soa' = PrunedSoa /\ pf' = PrunedPf
-  /\ UNCHANGED <<now, gen, der>>
+  /\ UNCHANGED <<now, gen, der>> /\ UNCHANGED race
 
 \* ... and when the index no longer answers the target, the chase goes upstream.  From then on the target has an
 \* ordinary exact entry of its own: it is no longer a fresh question, the alias is not followed further.
 HitDerResolve(s, x) ==
+  /\ fl = None
   /\ der # None /\ der.exp > now /\ Rcode[der.q] = "ND" /\ ~Covered(der.q)
   /\ Upstream(der.q, "srv", s, x)
   /\ der' = None
-  /\ UNCHANGED <<now>>
+  /\ UNCHANGED <<now, ver, born, fl>>
 
 DropDer ==      \* the alias entry ages out (nothing observable; keeps the state space small)
+  /\ fl = None
   /\ der # None /\ der.exp <= now
   /\ der' = None
-  /\ UNCHANGED <<now, gen, soa, pf, reply>>
+  /\ UNCHANGED <<now, gen, soa, pf, reply>> /\ UNCHANGED race
 
-Purge ==        \* Cache.Purge of any name of the zone: proof RRsets go, the SOA entry stays
-  /\ pf' = [p \in Pieces |-> None]
+Purge ==        \* Cache.Purge of any name of the zone: proof RRsets go, the SOA entry stays; the zone's conflict tombstones
+  /\ pf' = [p \in Pieces |-> None]     \* go too ("an explicit recovery boundary"); a lookup in flight keeps its snapshot
   /\ reply' = NoReply
-  /\ UNCHANGED <<now, gen, soa, der>>
+  /\ quar' = 0
+  /\ UNCHANGED <<now, gen, soa, der, ver, born, fl>>
 
-Tick(d) ==
+Tick(d) ==      \* a lookup takes microseconds: the clock does not move while one is in flight
+  /\ fl = None
   /\ now + d <= MaxClock
   /\ now' = now + d
   /\ reply' = NoReply
-  /\ UNCHANGED <<gen, soa, pf, der>>
+  /\ quar' = IF quar <= now + d THEN 0 ELSE quar      \* an ended tombstone is as good as none
+  /\ UNCHANGED <<gen, soa, pf, der, ver, born, fl>>
+
+(* ---- Race: the zone changes; the lookup as the three sections it is ------ *)
+\* The authority's zone changes at the owner of piece p: from now on its answers carry another RRset there (type bitmap
+\* or next-owner field).  tgt = "flight": it is the answer to the question in flight that turned positive (a type added at
+\* the NODATA name / the NXDOMAIN name itself created inside p's span); "other": some other name's.
+Create(p, tgt) ==
+  /\ Race /\ born < MaxBorn /\ tgt \in Targets
+  /\ tgt = "flight" => (fl # None /\ ~fl.hit /\ p \in Need[fl.q])
+  /\ ver' = [ver EXCEPT ![p] = @ + 1] /\ born' = born + 1
+  /\ fl' = IF tgt = "flight" THEN [fl EXCEPT !.hit = TRUE] ELSE fl
+  /\ reply' = NoReply
+  /\ UNCHANGED <<now, gen, soa, pf, der, quar>>
+
+\* lookupWithMeta, first section (read lock): the published snapshot of the zone is captured.  Only a lookup whose
+\* snapshot proves the question is worth following (any other misses whatever happens meanwhile: Resolve / MissGet).
+Begin(q, r) ==
+  /\ Race /\ fl = None
+  /\ Covered(q)
+  /\ fl' = [g |-> 1, q |-> q, r |-> r, soa |-> soa, pf |-> pf, hit |-> FALSE]
+  /\ reply' = NoReply
+  /\ UNCHANGED <<now, gen, soa, pf, der, ver, born, quar>>
+
+\* second section: denialProofEvaluate on the snapshot (no lock).  The clock stands still, so what Begin found covered
+\* still is; the entries selected are the snapshot's.  Third section (read lock again): the quarantine re-check
+\* (nsec3SelectionConflictedLocked: only NSEC3 selections can be tombstoned) and the shaping, from the SNAPSHOT.
+FlBlocked == Mutant # "recheckSkipsNsec3" /\ QuarActive
+FlUsed    == Need[fl.q]
+FlExpiry  == SetMin({fl.pf[p].exp : p \in FlUsed} \cup {fl.soa.exp})
+FlReply ==
+  [kind |-> "synth", q |-> fl.q, route |-> fl.r, rc |-> Rcode[fl.q], at |-> now,
+   ttl |-> FlExpiry - now, hand |-> FlExpiry, ad |-> TRUE,
+   soaGen |-> fl.soa.g, gens |-> [p \in FlUsed |-> fl.pf[p].g],
+   mtru |-> SetMin({fl.pf[p].tru : p \in FlUsed} \cup {fl.soa.tru}),
+   allval |-> fl.soa.val /\ \A p \in FlUsed : fl.pf[p].val, complete |-> TRUE,
+   quar |-> QuarActive,          \* shaped from a ring that is tombstoned at this very instant
+   hit |-> fl.hit,               \* ... and it denies what the zone has meanwhile got
+   inflight |-> TRUE,
+   replaced |-> \E p \in FlUsed : pf[p] # None /\ pf[p].v # fl.pf[p].v]   \* the index retains ANOTHER version of a piece used
+\* pruneZoneLocked: only when the snapshot evaluated is still the published one
+FlPruned == <<soa, pf>> = <<fl.soa, fl.pf>>
+
+FlSynth ==
+  /\ fl # None /\ ~FlBlocked
+  /\ reply' = FlReply
+  /\ soa' = IF FlPruned THEN PrunedSoa ELSE soa
+  /\ pf'  = IF FlPruned THEN PrunedPf ELSE pf
+  /\ fl' = None
+  /\ UNCHANGED <<now, gen, der, ver, born, quar>>
+
+FlMissGet ==            \* the re-check gives up: Store.GetWithContext reports a miss
+  /\ fl # None /\ FlBlocked /\ fl.r = "get"
+  /\ reply' = [kind |-> "miss", q |-> fl.q, route |-> "get"]
+  /\ fl' = None
+  /\ UNCHANGED <<now, gen, soa, pf, der, ver, born, quar>>
+
+FlResolve(s, x) ==      \* ... Cache.ServeDNS resolves the question upstream (the admission is refused: tombstoned)
+  /\ fl # None /\ FlBlocked /\ fl.r = "srv" /\ ~fl.hit
+  /\ Upstream(fl.q, "srv", s, x)
+  /\ fl' = None
+  /\ UNCHANGED <<now, der, ver, born>>
+
+FlPositive ==           \* ... and what has meanwhile been created is answered positively (nothing for the proof index)
+  /\ fl # None /\ FlBlocked /\ fl.r = "srv" /\ fl.hit
+  /\ reply' = [kind |-> "positive", q |-> fl.q, route |-> "srv"]
+  /\ fl' = None
+  /\ UNCHANGED <<now, gen, soa, pf, der, ver, born, quar>>
 
 Next ==
   \/ \E q \in Questions, r \in Routes : Synth(q, r)
@@ -235,6 +369,12 @@ Next ==
   \/ DropDer
   \/ Purge
   \/ \E d \in Steps : Tick(d)
+  \/ \E p \in Pieces, t \in Targets : Create(p, t)
+  \/ \E q \in Questions, r \in Routes : Begin(q, r)
+  \/ FlSynth
+  \/ FlMissGet
+  \/ \E s \in Lifetimes, x \in Lifetimes : FlResolve(s, x)
+  \/ FlPositive
 
 Spec == Init /\ [][Next]_vars
 
@@ -242,7 +382,8 @@ Spec == Init /\ [][Next]_vars
 Composed == reply.kind \in {"synth", "derive", "derchase"}
 
 TypeOK ==
-  /\ now \in 0..MaxClock /\ gen \in 0..MaxGen
+  /\ now \in 0..MaxClock /\ gen \in 0..MaxGen /\ born \in 0..MaxBorn /\ quar \in Nat
+  /\ (~Race => fl = None /\ born = 0 /\ quar = 0)
   /\ soa = None \/ soa.exp \in Nat
   /\ \A p \in Pieces : pf[p] = None \/ pf[p].exp \in Nat
 
@@ -269,9 +410,20 @@ EntryWithinTruth == /\ soa # None => soa.exp <= soa.tru
 PieceFoldsSoaStep == (gen' = gen + 1 /\ soa' # None) =>
                         \A p \in Pieces : (pf'[p] # None /\ pf'[p].g = gen') => pf'[p].exp <= soa'.exp
 
+\* C02, order of admission vs lookup: no answer is shaped from a ring that is tombstoned at the instant of shaping -- the
+\* lookup or the conflict invalidation, never both (refuted by the seeded change C02-r3-1 = "recheckSkipsNsec3")
+NoQuarantinedSynthesis == Composed => ~reply.quar
+\* while the tombstone is active the index holds nothing of the ring (refuted by "quarKeepsRing")
+QuarantineEmptiesRing == QuarActive => \A p \in Pieces : pf[p] = None
+\* documented, NOT demanded (false for Kind = "nsec" as built, see MC_RaceNsecStale.cfg): a lookup in flight answers from
+\* its snapshot although an admission has meanwhile REPLACED the RRset it rests on -- NSEC has no quarantine, the lookup
+\* linearises at the capture of the snapshot (NSEC3: the same only when a Purge came between, which empties the ring
+\* without a tombstone)
+NoStaleSnapshotDenial == (Composed /\ reply.inflight /\ reply.hit) => ~reply.replaced
+
 (* `reply` is an output, not state: the exhaustive configs hide it with the VIEW and check the predicates over it as
    action properties (every generated transition is evaluated, seen view or not).                                  *)
-StateView == <<now, gen, soa, pf, der>>
+StateView == <<now, gen, soa, pf, der, ver, born, quar, fl>>
 ATTLShown        == [][TTLShown']_vars
 AHandDown        == [][HandDown']_vars
 ANoExpiredPiece  == [][NoExpiredPiece']_vars
@@ -279,4 +431,6 @@ ADerivedShown    == [][DerivedShown']_vars
 AADOnlyValidated == [][ADOnlyValidated']_vars
 ACoveredOnly     == [][CoveredOnly']_vars
 APieceFoldsSoa   == [][PieceFoldsSoaStep]_vars
+ANoQuarantinedSynthesis == [][NoQuarantinedSynthesis']_vars
+ANoStaleSnapshotDenial  == [][NoStaleSnapshotDenial']_vars
 =============================================================================
